@@ -258,7 +258,8 @@ contract(CL, "CoordinateList.encodeCoord", types=dict(prev_ind="int", ind="int")
 from .iterators import FMT_OK
 A_FMT_OK = FMT_OK("a")
 A_BOXES = "forall(lambda k: typeis(a.payloads[k], 'Payload'), 0, len(a.payloads))"
-ENC_MOD = ["list:self.coords", "list:self.payloads", "self.depth", "self.is_leaf", "self.fiber_occupancy", "any:OutList.g_state"]
+ENC_MOD = ["list:self.coords", "list:self.payloads", "self.depth", "self.is_leaf", "self.fiber_occupancy", "any:OutList.g_state",
+           "a._saved_count", "a._saved_dist"]
 contract(CL, "CoordinateList.encodeFiber", mutant_skip=["output["],
          types=dict(self="CoordinateList", a="Fiber", dim_len="int", codec="Codec", depth="int", ranks="list[str]", output="OutDict",
                     output_tensor="U", shape="opt[U]"),
@@ -334,7 +335,7 @@ contract(BV, "Bitvector.encodeFiber", mutant_skip=["output["],
                    # coordinates are non-negative (a negative one would address the mask from its end)
                    "forall(lambda j: a.coords[j] >= 0, 0, len(a.coords))", "a.g_active0 >= 0"],
          raises={"IndexError": dict(when=None)},          # a presented coordinate at or beyond dim_len
-         modifies=["self.coords", "list:self.payloads", "any:OutList.g_state"],
+         modifies=["self.coords", "list:self.payloads", "any:OutList.g_state", "a._saved_count", "a._saved_dist"],
          ensures={"C20": [
              "result == len(final(_it0).seq)",
              # the mask has one entry per coordinate of the dimension: 1 exactly at the coordinates the fiber presents
